@@ -3,7 +3,7 @@ PROPS = ["C30", "C31"]
 READY = True
 CLAIMS = {
  "C30": dict(technique="TLA+ model of io.TimeToIndex/IndexToTime/IndexToOffset/FileSize over integer civil-calendar arithmetic with a zone-offset table, invariants checked by TLC on the interval grid; TLC-emitted cases replayed into the real functions under each configured zone",
-             text="TimeIndex.tla transcribes the index functions (1D special case, elapsed-time division for the other timeframes, IndexToTime, IndexToOffset, FileSize with time.Local) over seconds relative to 2018-01-01 with the zone table of Go's tz data as an input (UTC, America/New_York, Asia/Tokyo, Australia/Lord_Howe, 2019-2021). TLC enumerates interval ordinals per (zone, timeframe, year) - every interval for the coarse timeframes, windows around year edges, leap day and every offset change plus a seeded stride for the fine ones - and checks for the first and last second of each interval: one slot in the own year's file, slot<->start round trip, explicit inverse of the slot map (bijection), Headersize <= offset and offset+recordLen <= FileSize. The emitted cases (boundaries and a seeded sample) are evaluated by the real functions with utils.InstanceConfig.Timezone set to the zone (and time.Local set to a seeded zone); the real results are judged against the property and compared with the model.",
+             text="TimeIndex.tla transcribes the index functions (1D special case, elapsed-time division for the other timeframes, IndexToTime, IndexToOffset, FileSize with time.Local) over seconds relative to 2018-01-01 with the zone table of Go's tz data as an input (UTC, America/New_York, Asia/Tokyo, Australia/Lord_Howe, 2019-2021). TLC enumerates interval ordinals per (zone, timeframe, year) - every interval for the coarse timeframes, windows around year edges, leap day and every offset change plus a seeded stride for the fine ones - and checks for the first and last second of each interval: one slot in the own year's file, slot<->start round trip, explicit inverse of the slot map (bijection), Headersize <= offset and offset+recordLen <= FileSize. The emitted cases (boundaries and a seeded sample) are evaluated by the real functions with utils.InstanceConfig.Timezone set to the zone (and time.Local set to a seeded zone); the real results are judged against the property and compared with the model; the real functions are also evaluated for wide records (600 and 8200 bytes, beyond TLC's 32-bit integers) and judged with Python integers.",
              note="Trusted: TLC, Go's time package and tz data (the zone table is an input), the Python concretisation (seconds relative to base -> epochs, nanoseconds added). Bounded: 4 zones, years 2019-2021, utils.Timeframes (all whole seconds), record lengths 12/24/56. Known finding KF-C30-1 (1D, January 1) is modelled as deviation DailyIndexFromZero."),
  "C31": dict(technique="TLA+ model of CandleDuration.Truncate/Ceil/IsWithin per suffix, TimeframeFromString/FromDuration, CandleDurationFromString and QueryableTimeframe, invariants checked by TLC on a timestamp grid x candle durations x zones; TLC-emitted cases replayed into the real functions",
              text="TimeIndex.tla transcribes time.Truncate (epoch aligned, computed unit-wise in 32 bits), the D/M special cases of Truncate and Ceil, the per-suffix IsWithin (ISO week, month and year arithmetic on the local wall clock) and the parse/print functions at token level. TLC enumerates (zone, suffix, multiplier) x a grid of timestamps (year/month/week boundaries, leap day, every offset change, each surrounded by second/half-hour/hour/day/25-hour distances, plus a seeded stride) and checks start <= ts < end, ts inside its own window, start and end delimiting one window, parse-print-parse stability and that the queryable timeframe divides the duration - for the intended behaviour, and for the known behaviour up to the listed deviations. Emitted cases are evaluated by the real functions with timestamps in the configured zone (as ColumnSeries.GetTime delivers them), with and without nanoseconds.",
